@@ -50,6 +50,11 @@ var (
 		OnceRewritten   int      `json:"once_rewritten"`
 		SyncSites       int      `json:"sync_adjacent_sites"`
 		GoStmts         int      `json:"go_statements"`
+		GoRewritten     int      `json:"go_statements_rewritten"`
+		WGRewritten     int      `json:"waitgroup_calls_rewritten"`
+		ChanRewritten   int      `json:"channel_ops_rewritten"`
+		SelectRewritten int      `json:"selects_rewritten"`
+		Unsupported     []string `json:"unsupported_constructs,omitempty"`
 		ChanOps         int      `json:"channel_ops"`
 		SyncOtherUses   []string `json:"sync_other_uses,omitempty"`
 		SourceSHA256Cmd string   `json:"-"`
@@ -289,6 +294,14 @@ func instrumentFile(p *packages.Package, f *ast.File, src []byte, root string) [
 			if !ok {
 				return true
 			}
+			if _, isChan := tv.Type.Underlying().(*types.Chan); isChan {
+				es, sp := rewriteChanRange(p, r, src)
+				edits = append(edits, es...)
+				consumed = append(consumed, span{sp[0], sp[1]})
+				summary.ChanOps++
+				summary.ChanRewritten++
+				return true
+			}
 			mt, ok := tv.Type.Underlying().(*types.Map)
 			if !ok {
 				return true
@@ -306,6 +319,7 @@ func instrumentFile(p *packages.Package, f *ast.File, src []byte, root string) [
 		return true
 	})
 
+	commOf := map[ast.Node]bool{} // send statements / receive expressions that are the communication of a select case
 	ast.Inspect(f, func(n ast.Node) bool {
 		switch x := n.(type) {
 		case *ast.BlockStmt:
@@ -316,16 +330,91 @@ func instrumentFile(p *packages.Package, f *ast.File, src []byte, root string) [
 			addYields(x.Body)
 		case *ast.GoStmt:
 			summary.GoStmts++
+			ges, spans := rewriteGo(p, x, src)
+			edits = append(edits, ges...)
+			for _, sp := range spans {
+				consumed = append(consumed, span{sp[0], sp[1]})
+			}
+			summary.GoRewritten++
+		case *ast.SelectStmt:
+			es, sps := rewriteSelect(p, x, src, commOf, func(what string, pos token.Pos) {
+				summary.Unsupported = append(summary.Unsupported, what+"@"+rel(pos))
+			})
+			edits = append(edits, es...)
+			for _, sp := range sps {
+				consumed = append(consumed, span{sp[0], sp[1]})
+			}
+			summary.SelectRewritten++
 		case *ast.SendStmt:
 			summary.ChanOps++
+			if commOf[x] {
+				return true
+			}
+			if inConsumed(off(x.Pos()), off(x.End())) {
+				summary.Unsupported = append(summary.Unsupported, "send-inside-rewritten-span@"+rel(x.Pos()))
+				return true
+			}
+			edits = append(edits, edit{off: off(x.Pos()), text: rtName + ".Send("},
+				edit{off: off(x.Arrow), end: off(x.Arrow) + 2, text: ", "},
+				edit{off: off(x.End()), text: ")"})
+			summary.ChanRewritten++
 		case *ast.UnaryExpr:
 			if x.Op == token.ARROW {
 				summary.ChanOps++
+				if commOf[x] {
+					return true
+				}
+				if inConsumed(off(x.Pos()), off(x.End())) {
+					summary.Unsupported = append(summary.Unsupported, "receive-inside-rewritten-span@"+rel(x.Pos()))
+					return true
+				}
+				fn := "Recv"
+				if tv, ok := p.TypesInfo.Types[x]; ok {
+					if _, isTuple := tv.Type.(*types.Tuple); isTuple {
+						fn = "Recv2"
+					}
+				}
+				edits = append(edits, edit{off: off(x.OpPos), end: off(x.OpPos) + 2, text: rtName + "." + fn + "("},
+					edit{off: off(x.End()), text: ")"})
+				summary.ChanRewritten++
 			}
 		case *ast.CallExpr:
+			if id, ok := ast.Unparen(x.Fun).(*ast.Ident); ok {
+				if b, isB := p.TypesInfo.Uses[id].(*types.Builtin); isB && !inConsumed(off(x.Pos()), off(x.End())) {
+					isChan := func(e ast.Expr) bool {
+						t := p.TypesInfo.TypeOf(e)
+						if t == nil {
+							return false
+						}
+						_, ok := t.Underlying().(*types.Chan)
+						return ok
+					}
+					switch b.Name() {
+					case "make":
+						if isChan(x) {
+							edits = append(edits, edit{off: off(x.Pos()), text: rtName + ".MakeChan("}, edit{off: off(x.End()), text: ")"})
+							summary.ChanRewritten++
+						}
+					case "close":
+						if len(x.Args) == 1 {
+							edits = append(edits, edit{off: off(id.Pos()), end: off(id.End()), text: rtName + ".Close"})
+							summary.ChanRewritten++
+						}
+					case "len":
+						if len(x.Args) == 1 && isChan(x.Args[0]) {
+							edits = append(edits, edit{off: off(id.Pos()), end: off(id.End()), text: rtName + ".ChanLen"})
+							summary.ChanRewritten++
+						}
+					}
+				}
+				return true
+			}
 			sel, ok := x.Fun.(*ast.SelectorExpr)
 			if !ok {
 				return true
+			}
+			if pk, isPkg := p.TypesInfo.Uses[identOf(sel.X)].(*types.PkgName); isPkg && pk.Imported().Path() == "time" && (sel.Sel.Name == "AfterFunc" || sel.Sel.Name == "NewTimer" || sel.Sel.Name == "NewTicker" || sel.Sel.Name == "Tick") {
+				summary.Unsupported = append(summary.Unsupported, "time."+sel.Sel.Name+"@"+rel(x.Pos()))
 			}
 			s := p.TypesInfo.Selections[sel]
 			if s == nil || s.Kind() != types.MethodVal {
@@ -379,7 +468,22 @@ func instrumentFile(p *packages.Package, f *ast.File, src []byte, root string) [
 				} else {
 					summary.LocksSkipped++
 				}
+			case rname == "WaitGroup" && (fn.Name() == "Add" || fn.Name() == "Done" || fn.Name() == "Wait"):
+				if inConsumed(a, b) {
+					summary.LocksSkipped++
+					break
+				}
+				ptr := recvPointer(xsrc, p.TypesInfo.TypeOf(sel.X), s)
+				// only the "X.M(" prefix is replaced: arguments keep their own edits
+				txt := fmt.Sprintf("%s.WG%s(%s", rtName, fn.Name(), ptr)
+				if len(x.Args) > 0 {
+					txt += ", "
+				}
+				edits = append(edits, edit{off: a, end: off(x.Lparen) + 1, text: txt})
+				summary.WGRewritten++
 			case fn.Name() == "Unlock" || fn.Name() == "RUnlock" || fn.Name() == "TryLock" || fn.Name() == "TryRLock":
+			case rname == "Cond" && fn.Name() == "Wait":
+				summary.Unsupported = append(summary.Unsupported, "sync.Cond.Wait@"+rel(x.Pos()))
 			default:
 				summary.SyncOtherUses = append(summary.SyncOtherUses, fmt.Sprintf("%s.%s@%s", rname, fn.Name(), rel(x.Pos())))
 			}
@@ -387,6 +491,188 @@ func instrumentFile(p *packages.Package, f *ast.File, src []byte, root string) [
 		return true
 	})
 	return edits
+}
+
+func identOf(e ast.Expr) *ast.Ident {
+	id, _ := e.(*ast.Ident)
+	return id
+}
+
+// rewriteChanRange turns `for v := range ch { body }` into
+//
+//	for { v, ok := xsimrt__.Recv2(ch); if !ok { break }; { body } }
+func rewriteChanRange(p *packages.Package, r *ast.RangeStmt, src []byte) ([]edit, [2]int) {
+	off := func(pos token.Pos) int { return p.Fset.Position(pos).Offset }
+	xsrc := string(src[off(r.X.Pos()):off(r.X.End())])
+	key := "_"
+	if r.Key != nil {
+		key = string(src[off(r.Key.Pos()):off(r.Key.End())])
+	}
+	var hdr string
+	if r.Key == nil || r.Tok == token.DEFINE {
+		hdr = fmt.Sprintf("for { %s, %sok := %s.Recv2(%s); if !%sok { break }; {", key, rtName, rtName, xsrc, rtName)
+	} else {
+		hdr = fmt.Sprintf("for { var %sok bool; %s, %sok = %s.Recv2(%s); if !%sok { break }; {", rtName, key, rtName, rtName, xsrc, rtName)
+	}
+	a, b := off(r.For), off(r.Body.Lbrace)+1
+	return []edit{{off: a, end: b, text: hdr}, {off: off(r.Body.Rbrace), text: "}"}}, [2]int{a, b}
+}
+
+// rewriteSelect turns a select statement into a switch over xsimrt__.Select:
+//
+//	switch xsimrt__r := xsimrt__.Select(hasDefault, xsimrt__.RecvCase(a), xsimrt__.SendCase(b, x)); xsimrt__r.I {
+//	case 0: v, ok := xsimrt__.As(a, xsimrt__r.V), xsimrt__r.OK; ...
+//	case 1: ...
+//	default: ...
+//	}
+//
+// Only headers are replaced; the clause bodies keep their own edits. break
+// inside a clause leaves the switch as it left the select.
+func rewriteSelect(p *packages.Package, sel *ast.SelectStmt, src []byte, commOf map[ast.Node]bool, unsupported func(string, token.Pos)) ([]edit, [][2]int) {
+	off := func(pos token.Pos) int { return p.Fset.Position(pos).Offset }
+	text := func(n ast.Node) string { return string(src[off(n.Pos()):off(n.End())]) }
+	var es []edit
+	var spans [][2]int
+	var cases []string
+	hasDefault := false
+	idx := 0
+	for _, st := range sel.Body.List {
+		cc := st.(*ast.CommClause)
+		a, b := off(cc.Case), off(cc.Colon)+1
+		spans = append(spans, [2]int{a, b})
+		if cc.Comm == nil {
+			hasDefault = true
+			es = append(es, edit{off: a, end: b, text: "default:"})
+			continue
+		}
+		hdr := fmt.Sprintf("case %d:", idx)
+		recvOf := func(e ast.Expr) *ast.UnaryExpr {
+			u, _ := ast.Unparen(e).(*ast.UnaryExpr)
+			return u
+		}
+		switch c := cc.Comm.(type) {
+		case *ast.SendStmt:
+			commOf[c] = true
+			cases = append(cases, fmt.Sprintf("%s.SendCase(%s, %s)", rtName, text(c.Chan), text(c.Value)))
+		case *ast.ExprStmt:
+			u := recvOf(c.X)
+			commOf[u] = true
+			cases = append(cases, fmt.Sprintf("%s.RecvCase(%s)", rtName, text(u.X)))
+		case *ast.AssignStmt:
+			u := recvOf(c.Rhs[0])
+			commOf[u] = true
+			ch := text(u.X)
+			if !isSimple(u.X) {
+				unsupported("select-receive-channel-expression-evaluated-twice", u.Pos())
+			}
+			cases = append(cases, fmt.Sprintf("%s.RecvCase(%s)", rtName, ch))
+			tok := c.Tok.String()
+			if len(c.Lhs) == 1 {
+				hdr += fmt.Sprintf(" %s %s %s.As(%s, %sr.V);", text(c.Lhs[0]), tok, rtName, ch, rtName)
+			} else {
+				hdr += fmt.Sprintf(" %s, %s %s %s.As(%s, %sr.V), %sr.OK;", text(c.Lhs[0]), text(c.Lhs[1]), tok, rtName, ch, rtName, rtName)
+			}
+		}
+		es = append(es, edit{off: a, end: b, text: hdr})
+		idx++
+	}
+	a, b := off(sel.Select), off(sel.Body.Lbrace)+1
+	spans = append(spans, [2]int{a, b})
+	args := fmt.Sprint(hasDefault)
+	if len(cases) > 0 {
+		args += ", " + strings.Join(cases, ", ")
+	}
+	es = append(es, edit{off: a, end: b, text: fmt.Sprintf("switch %sr := %s.Select(%s); %sr.I {", rtName, rtName, args, rtName)})
+	return es, spans
+}
+
+// recvPointer spells a pointer to the value a promoted or direct method of a
+// sync type is called on: the receiver expression followed by the implicit
+// embedding path, with & in front unless that is a pointer already.
+func recvPointer(xsrc string, t types.Type, s *types.Selection) string {
+	expr := "(" + xsrc + ")"
+	idx := s.Index()
+	for _, i := range idx[:len(idx)-1] {
+		if pt, ok := t.Underlying().(*types.Pointer); ok {
+			t = pt.Elem()
+		}
+		st, ok := t.Underlying().(*types.Struct)
+		if !ok {
+			break
+		}
+		f := st.Field(i)
+		expr += "." + f.Name()
+		t = f.Type()
+	}
+	if _, ok := t.Underlying().(*types.Pointer); ok {
+		return expr
+	}
+	return "&" + expr
+}
+
+// rewriteGo turns `go f(a, b)` into
+//
+//	{ t0 := a; t1 := b; xsimrt__.Go(func() { f(t0, t1) }) }
+//
+// The function value and the arguments of a go statement are evaluated by the
+// parent; hoisting keeps that. Constants, nil, untyped values and anything that
+// contains a function literal (its body receives edits of its own) stay where
+// they are, which only moves a side-effect-free evaluation.
+func rewriteGo(p *packages.Package, g *ast.GoStmt, src []byte) ([]edit, [][2]int) {
+	off := func(pos token.Pos) int { return p.Fset.Position(pos).Offset }
+	var es []edit
+	var hoists []string
+	var spans [][2]int
+	n := 0
+	hasLit := func(e ast.Expr) bool {
+		found := false
+		ast.Inspect(e, func(n ast.Node) bool {
+			if _, ok := n.(*ast.FuncLit); ok {
+				found = true
+			}
+			return !found
+		})
+		return found
+	}
+	hoist := func(e ast.Expr) {
+		tv, ok := p.TypesInfo.Types[e]
+		if !ok || tv.Value != nil || tv.IsNil() || tv.IsType() || tv.IsBuiltin() || hasLit(e) {
+			return
+		}
+		if b, ok := tv.Type.(*types.Basic); ok && b.Info()&types.IsUntyped != 0 {
+			return
+		}
+		if _, ok := tv.Type.(*types.Tuple); ok {
+			return
+		}
+		name := fmt.Sprintf("%sg%d", rtName, n)
+		n++
+		hoists = append(hoists, fmt.Sprintf("%s := %s; ", name, string(src[off(e.Pos()):off(e.End())])))
+		es = append(es, edit{off: off(e.Pos()), end: off(e.End()), text: name})
+		spans = append(spans, [2]int{off(e.Pos()), off(e.End())})
+	}
+	// the function value: hoisted when it is a method value or a variable
+	switch f := ast.Unparen(g.Call.Fun).(type) {
+	case *ast.FuncLit:
+	case *ast.Ident:
+		if _, isVar := p.TypesInfo.Uses[f].(*types.Var); isVar {
+			hoist(g.Call.Fun)
+		}
+	case *ast.SelectorExpr:
+		if sel := p.TypesInfo.Selections[f]; sel != nil {
+			hoist(g.Call.Fun) // method value or func-typed field
+		} else if _, isVar := p.TypesInfo.Uses[f.Sel].(*types.Var); isVar {
+			hoist(g.Call.Fun)
+		}
+	default:
+		hoist(g.Call.Fun)
+	}
+	for _, a := range g.Call.Args {
+		hoist(a)
+	}
+	es = append(es, edit{off: off(g.Go), end: off(g.Go) + 2, text: "{ " + strings.Join(hoists, "") + rtName + ".Go(func() { "})
+	es = append(es, edit{off: off(g.Call.End()), text: " }) }"})
+	return es, spans
 }
 
 // isOncePtr reports whether the static type of the receiver expression (after
